@@ -202,3 +202,39 @@ func pipelineSpecs() []Spec {
 	rec(`{a="b"}`, 0, 2, func(q string) { out = append(out, M(`sum by (c) (count_over_time(`+q+` [5s]))`)) })
 	return out
 }
+
+// traceqlAttrSpecs: the TraceQL attribute-name alphabet.  Every attribute reference = scope prefix ∈ {".", "span.",
+// "resource."} followed by a name out of an alphabet whose members themselves begin with a scope word or a dot
+// (one and two levels deep) — the names on which "strip the scope prefix" is not idempotent — placed in every
+// position that takes an attribute: the argument of each aggregator (avg/max/min/sum) and a selector condition,
+// planned as a simple request and as a complex (per-portion re-executed) request, and as the tags / values
+// requests.  Used for the re-execution part (added after seeded change C14-g was missed: the spec set had three
+// such names, each behind the "." prefix only, where the stripped text happened to be re-stripped to itself).
+func traceqlAttrSpecs() []Spec {
+	scopes := []string{".", "span.", "resource."}
+	var names []string
+	for _, a := range []string{"", "span.", "resource.", "."} {
+		for _, b := range []string{"", "span.", "resource.", "."} {
+			if a == "" && b != "" {
+				continue // the same text as (b, "")
+			}
+			names = append(names, a+b+"q")
+		}
+	}
+	var out []Spec
+	for _, sc := range scopes {
+		for _, n := range names {
+			at := sc + n
+			for _, agg := range []string{"avg", "max", "min", "sum"} {
+				q := `{.a="b"} | ` + agg + `(` + at + `) > 1`
+				out = append(out, Spec{Kind: "traceql", Q: q, Limit: 10}, Spec{Kind: "traceql_complex", Q: q, Limit: 1})
+			}
+			q := `{` + at + `="v"}`
+			out = append(out, Spec{Kind: "traceql", Q: q, Limit: 10}, Spec{Kind: "traceql_complex", Q: q, Limit: 1},
+				Spec{Kind: "traceql_tags", Q: q, Limit: 10}, Spec{Kind: "traceql_values", Q: q, Extra: []string{"x"}, Limit: 10})
+			q = `{.a="b" && ` + at + `>5} | count() > 1`
+			out = append(out, Spec{Kind: "traceql_complex", Q: q, Limit: 1})
+		}
+	}
+	return out
+}
